@@ -11,6 +11,7 @@ from __future__ import annotations
 import asyncio
 import json
 import os
+import stat
 import random
 import shutil
 from pathlib import Path
@@ -81,7 +82,34 @@ def record_run(scn, base, oracles, files, plan=None, gate=None, crash_at=None):
     pool_paths = {o.repo["url"]: [p for p in files[o.repo["url"]] if p.startswith("pool/")] for o in oracles}
     mirror_root = str(base / "mirror")
 
+    inplace = []
+
+    def shared_with_live(path):
+        """the live dists path (if any) that is the same inode as `path`"""
+        try:
+            st = os.stat(path, follow_symlinks=False)
+        except OSError:
+            return None
+        if not stat.S_ISREG(st.st_mode) or st.st_nlink < 2:
+            return None
+        for o in oracles:
+            for dp, _, fns in os.walk(o.mroot / "dists"):
+                for n in fns:
+                    try:
+                        lt = os.stat(os.path.join(dp, n), follow_symlinks=False)
+                    except OSError:
+                        continue
+                    if (lt.st_dev, lt.st_ino) == (st.st_dev, st.st_ino):
+                        return os.path.relpath(os.path.join(dp, n), base)
+        return None
+
     def hook(kind, paths, idx):
+        if kind in ("open-w", "truncate") and paths[0].startswith(str(base)):
+            # a file the clients can reach, about to be rewritten through one of its other names
+            live = shared_with_live(paths[0])
+            if live is not None:
+                inplace.append(f"{kind} of {os.path.relpath(paths[0], base)} rewrites the published file {live} "
+                               f"in place (same inode)")
         if not any(p.startswith(mirror_root) for p in paths):
             return
         if paths[0].endswith(".apt_mirror_aio"):
@@ -102,6 +130,7 @@ def record_run(scn, base, oracles, files, plan=None, gate=None, crash_at=None):
     with R.Instrument() as inst:
         res = P.run_tool(scn, base, faults=faults, on_event=hook, gate=gate, upstream_files=files)
     res.obs = inst.obs
+    res.inplace = inplace
     return res, snaps
 
 
@@ -178,6 +207,10 @@ def run_case(rep, scn, case, sb, tag, rows):
                     sc["rest"] = "good"
     res, snaps = record_run(scn2, base, oracles, files2, plan=plan, gate=make_gate(case["seed"]) if case["gate"] else None)
     jc = {"scenario": {"repos": scn.repos, "nthreads": scn.nthreads}, "case": case, "plan": plan}
+    rep.count("inode_oracle.runs")
+    for msg in res.inplace[:2]:
+        found = True
+        rep.violation(msg, {"kind": "oracle", "tie": "snapshots", "case": jc}, tags={"oracle": "inplace_inode"})
     for o in oracles:
         ok = res.results.get(o.repo["url"]) is True
         if ok:
